@@ -320,6 +320,15 @@ func (ty *ObjectType) Assignable(other ExprType) bool {
 	}
 }
 
+func sortedPropNames(props map[string]ExprType) []string {
+	ns := make([]string, 0, len(props))
+	for n := range props {
+		ns = append(ns, n)
+	}
+	sort.Strings(ns)
+	return ns
+}
+
 // Merge merges two object types into one. When other object has unknown props, they are merged into
 // current object. When both have same property, when they are assignable, it remains as-is.
 // Otherwise, the property falls back to any type.
@@ -337,6 +346,12 @@ func (ty *ObjectType) Merge(other ExprType) ExprType {
 		mapped := ty.Mapped
 		if mapped == nil {
 			mapped = other.Mapped
+			if mapped != nil {
+				// Keep the invariant of Mapped: the receiver's props were not covered by the other's element type
+				for _, n := range sortedPropNames(ty.Props) {
+					mapped = mapped.Merge(ty.Props[n])
+				}
+			}
 		} else if other.Mapped != nil {
 			mapped = mapped.Merge(other.Mapped)
 		}
@@ -345,14 +360,16 @@ func (ty *ObjectType) Merge(other ExprType) ExprType {
 		for n, l := range ty.Props {
 			props[n] = l
 		}
-		for n, r := range other.Props {
+		// Visit props in sorted order. Merge is not associative so the result must not depend on map iteration order
+		for _, n := range sortedPropNames(other.Props) {
+			r := other.Props[n]
 			if l, ok := props[n]; ok {
 				props[n] = l.Merge(r)
 			} else {
 				props[n] = r
-				if mapped != nil {
-					mapped = mapped.Merge(r)
-				}
+			}
+			if mapped != nil {
+				mapped = mapped.Merge(props[n])
 			}
 		}
 
@@ -409,10 +426,10 @@ func (ty *ArrayType) Merge(other ExprType) ExprType {
 	switch other := other.(type) {
 	case *ArrayType:
 		if _, ok := ty.Elem.(AnyType); ok {
-			return ty
+			return &ArrayType{Elem: AnyType{}, Deref: false}
 		}
 		if _, ok := other.Elem.(AnyType); ok {
-			return other
+			return &ArrayType{Elem: AnyType{}, Deref: false}
 		}
 		return &ArrayType{
 			Elem:  ty.Elem.Merge(other.Elem),
